@@ -90,81 +90,30 @@ fn cuts_for(len: u64, img: &[u8]) -> Vec<u64> {
     set.into_iter().collect()
 }
 
-impl Prop for C11 {
-    type Case = CutCase;
-    const ID: &'static str = "C11";
-    const LEVEL: &'static str = "fault_enumeration";
-    const STALL_SECS: u64 = 120;
-    fn count(tier: Tier) -> u64 {
-        match tier {
-            Tier::Quick => 400,
-            Tier::Thorough => 12_000,
-        }
-    }
-    fn gen(seed: u64, idx: u64, tier: Tier) -> CutCase {
-        let mut r = Rng::new(seed);
-        let class = if idx < 10 { idx } else { 3 + r.below(7) };
-        let spec = match class {
-            0 => SeedSpec::Canned("minimal.mp4".into()),
-            1 => SeedSpec::CannedFrag,
-            2 => SeedSpec::Canned("extended_audio_object_type.mp4".into()),
-            3 | 4 => SeedSpec::Mux { seed: r.below(1 << 20) },
-            5 | 6 => SeedSpec::MuxReloc { seed: r.below(1 << 20) },
-            7 => SeedSpec::Meta { seed: r.below(1 << 20) },
-            8 => SeedSpec::Frag { seed: r.below(1 << 20) },
-            _ => {
-                if (tier == Tier::Thorough && r.chance(1, 40)) || idx == 9 {
-                    SeedSpec::Canned("big_buck_bunny_metadata.m4v".into())
-                } else {
-                    SeedSpec::Frag { seed: r.below(1 << 20) }
-                }
-            }
-        };
-        CutCase { seed: spec, cuts: None }
-    }
-    fn eval(case: &CutCase, st: &mut Stats) -> Vec<Violation> {
-        let prop = "C11";
-        let mut out: Vec<Violation> = Vec::new();
-        let si = build(&case.seed);
-        let img = si.bytes;
-        let len = img.len() as u64;
-        let class = case.seed.class();
-        let spec_hash = hash_str(&serde_json::to_string(&case.seed).unwrap_or_default());
-        st.inc(&format!("image.{class}"));
-        let sim = Sim::shared(SimDisk::from_bytes(img.clone()));
-        // ---- baseline: the library's own answers on the intact image
-        let mut base: BTreeMap<(u32, u32), BaseSample> = BTreeMap::new();
-        let mut base_counts: BTreeMap<u32, u32> = BTreeMap::new();
-        match Player::open(&sim, 0, len, 0) {
-            Opened::Ok(mut p) => {
-                for t in p.track_ids() {
-                    let c = match p.sample_count(t) {
-                        Ok(Ok(c)) => c,
-                        _ => 0,
-                    };
-                    base_counts.insert(t, c);
-                    for k in ids_for(c) {
-                        if let SampleOutcome::Some(s) = p.read_sample(t, k) {
-                            base.insert((t, k), BaseSample { bytes_hash: hash_bytes(&s.bytes), len: s.bytes.len(), start: s.start_time, duration: s.duration, offset: s.rendering_offset });
-                        }
-                    }
-                }
-            }
-            _ => {
-                // an image that does not open intact (e.g. some crash images) has no baseline
-                st.inc("intact_image_does_not_open");
-            }
-        }
-        st.add("baseline_samples", base.len() as u64);
-        // ---- every cut
-        let cuts = match &case.cuts {
-            Some(c) => c.clone(),
-            None => cuts_for(len, &img),
-        };
-        let mut opened_cuts = 0u64;
-        let mut samples_checked = 0u64;
-        let mut fewer = false;
-        for c in cuts {
+
+#[derive(Default)]
+struct Tally {
+    opened: u64,
+    samples: u64,
+    fewer: bool,
+}
+
+#[allow(clippy::too_many_arguments)]
+fn scan(
+    prop: &str,
+    class: &str,
+    spec_hash: u64,
+    sim: &crate::simdisk::SimRef,
+    len: u64,
+    opener: &mut dyn FnMut(u64) -> Opened,
+    base: &BTreeMap<(u32, u32), BaseSample>,
+    base_counts: &BTreeMap<u32, u32>,
+    cuts: &[u64],
+    st: &mut Stats,
+    out: &mut Vec<Violation>,
+    tally: &mut Tally,
+) {
+        for c in cuts.iter().copied() {
             if c >= len {
                 continue;
             }
@@ -177,7 +126,7 @@ impl Prop for C11 {
             }
             st.evaluations_override += 1;
             st.distinct.insert(mix(spec_hash, c));
-            let opened = Player::open(&sim, 0, c, 0);
+            let opened = opener(c);
             if sim.borrow().budget_tripped {
                 out.push(Violation::new(prop, "hang_on_truncated_file", format!("api=read_header image={class}"), format!("cut at {c} of {len}: read_header exceeded 10000+256n stream calls")));
             }
@@ -185,7 +134,7 @@ impl Prop for C11 {
                 Opened::Err(_) => {}
                 Opened::Panic(pi) => out.push(Violation::new(prop, "panic_on_truncated_file", format!("api=read_header {}", pi.discriminator()), format!("cut at {c} of {len} ({class}): {} at {}", pi.msg, pi.location))),
                 Opened::Ok(mut p) => {
-                    opened_cuts += 1;
+                    tally.opened += 1;
                     for t in p.track_ids() {
                         let cnt = match p.sample_count(t) {
                             Ok(Ok(x)) => x,
@@ -204,7 +153,7 @@ impl Prop for C11 {
                         // file's count so that every compared id has a baseline entry or is past the end)
                         let mut ids = ids_for(bc.unwrap());
                         if cnt < bc.unwrap() {
-                            fewer = true;
+                            tally.fewer = true;
                         }
                         if cnt != bc.unwrap() {
                             ids.extend(ids_for(cnt));
@@ -220,7 +169,7 @@ impl Prop for C11 {
                             match o {
                                 SampleOutcome::Panic(pi) => out.push(Violation::new(prop, "panic_on_truncated_file", format!("api=read_sample {}", pi.discriminator()), format!("cut at {c} of {len} ({class}): read_sample({t},{k})"))),
                                 SampleOutcome::Some(s) => {
-                                    samples_checked += 1;
+                                    tally.samples += 1;
                                     match base.get(&(t, k)) {
                                         None => {
                                             let bcount = bc.unwrap();
@@ -259,6 +208,131 @@ impl Prop for C11 {
                 break;
             }
         }
+    sim.borrow_mut().disk.set_cap(None);
+}
+
+impl Prop for C11 {
+    type Case = CutCase;
+    const ID: &'static str = "C11";
+    const LEVEL: &'static str = "fault_enumeration";
+    const STALL_SECS: u64 = 120;
+    fn count(tier: Tier) -> u64 {
+        match tier {
+            Tier::Quick => 400,
+            Tier::Thorough => 12_000,
+        }
+    }
+    fn gen(seed: u64, idx: u64, tier: Tier) -> CutCase {
+        let mut r = Rng::new(seed);
+        let class = if idx < 10 { idx } else { 3 + r.below(7) };
+        let spec = match class {
+            0 => SeedSpec::Canned("minimal.mp4".into()),
+            1 => SeedSpec::CannedFrag,
+            2 => SeedSpec::Canned("extended_audio_object_type.mp4".into()),
+            3 | 4 => SeedSpec::Mux { seed: r.below(1 << 20) },
+            5 | 6 => SeedSpec::MuxReloc { seed: r.below(1 << 20) },
+            7 => SeedSpec::Meta { seed: r.below(1 << 20) },
+            8 => SeedSpec::Frag { seed: r.below(1 << 20) },
+            _ => {
+                if (tier == Tier::Thorough && r.chance(1, 40)) || idx == 9 {
+                    SeedSpec::Canned("big_buck_bunny_metadata.m4v".into())
+                } else {
+                    SeedSpec::Frag { seed: r.below(1 << 20) }
+                }
+            }
+        };
+        CutCase { seed: spec, cuts: None }
+    }
+    fn eval(case: &CutCase, st: &mut Stats) -> Vec<Violation> {
+        let prop = "C11";
+        let mut out: Vec<Violation> = Vec::new();
+        let si = build(&case.seed);
+        let si_init_len = si.init_len;
+        let img = si.bytes;
+        let len = img.len() as u64;
+        let class = case.seed.class();
+        let spec_hash = hash_str(&serde_json::to_string(&case.seed).unwrap_or_default());
+        st.inc(&format!("image.{class}"));
+        let sim = Sim::shared(SimDisk::from_bytes(img.clone()));
+        // ---- baseline: the library's own answers on the intact image
+        let mut base: BTreeMap<(u32, u32), BaseSample> = BTreeMap::new();
+        let mut base_counts: BTreeMap<u32, u32> = BTreeMap::new();
+        match Player::open(&sim, 0, len, 0) {
+            Opened::Ok(mut p) => {
+                for t in p.track_ids() {
+                    let c = match p.sample_count(t) {
+                        Ok(Ok(c)) => c,
+                        _ => 0,
+                    };
+                    base_counts.insert(t, c);
+                    for k in ids_for(c) {
+                        if let SampleOutcome::Some(s) = p.read_sample(t, k) {
+                            base.insert((t, k), BaseSample { bytes_hash: hash_bytes(&s.bytes), len: s.bytes.len(), start: s.start_time, duration: s.duration, offset: s.rendering_offset });
+                        }
+                    }
+                }
+            }
+            _ => {
+                // an image that does not open intact (e.g. some crash images) has no baseline
+                st.inc("intact_image_does_not_open");
+            }
+        }
+        st.add("baseline_samples", base.len() as u64);
+        // ---- every cut of the single stream
+        let cuts = match &case.cuts {
+            Some(c) => c.clone(),
+            None => cuts_for(len, &img),
+        };
+        let mut tally = Tally::default();
+        {
+            let simc = sim.clone();
+            let mut opener = |c: u64| Player::open(&simc, 0, c, 0);
+            scan(prop, class, spec_hash, &sim, len, &mut opener, &base, &base_counts, &cuts, st, &mut out, &mut tally);
+        }
+        // ---- fragmented seeds: every cut of the media part opened against the intact init part
+        if let (Some(l), None) = (si_init_len, &case.cuts) {
+            if l < img.len() {
+                let isim = Sim::shared(SimDisk::from_bytes(img[..l].to_vec()));
+                if let Opened::Ok(init) = Player::open(&isim, 0, l as u64, 0) {
+                    let seg = img[l..].to_vec();
+                    let slen = seg.len() as u64;
+                    let ssim = Sim::shared(SimDisk::from_bytes(seg.clone()));
+                    let open_seg = |c: u64| -> Opened {
+                        let f = crate::simdisk::SimFile::new(&ssim);
+                        ssim.borrow_mut().begin_api(0);
+                        match crate::panicx::guard(|| init.reader.read_fragment_header(f, c)) {
+                            Ok(Ok(reader)) => Opened::Ok(Player { sim: ssim.clone(), reader, api: 1 }),
+                            Ok(Err(e)) => Opened::Err(crate::mux::ErrSummary::of(&e)),
+                            Err(p) => Opened::Panic(p),
+                        }
+                    };
+                    // baseline of the split view
+                    let mut sbase: BTreeMap<(u32, u32), BaseSample> = BTreeMap::new();
+                    let mut sbase_counts: BTreeMap<u32, u32> = BTreeMap::new();
+                    if let Opened::Ok(mut p) = open_seg(slen) {
+                        for t in p.track_ids() {
+                            let c = match p.sample_count(t) {
+                                Ok(Ok(c)) => c,
+                                _ => 0,
+                            };
+                            sbase_counts.insert(t, c);
+                            for k in ids_for(c) {
+                                if let SampleOutcome::Some(s) = p.read_sample(t, k) {
+                                    sbase.insert((t, k), BaseSample { bytes_hash: hash_bytes(&s.bytes), len: s.bytes.len(), start: s.start_time, duration: s.duration, offset: s.rendering_offset });
+                                }
+                            }
+                        }
+                        st.inc("split_view_baselines");
+                        let scuts: Vec<u64> = (0..slen).collect();
+                        let mut opener = |c: u64| open_seg(c);
+                        let split_class: &'static str = if class == "frag" { "frag_split" } else { "canned_frag_split" };
+                        scan(prop, split_class, spec_hash ^ 0x5117, &ssim, slen, &mut opener, &sbase, &sbase_counts, &scuts, st, &mut out, &mut tally);
+                        st.absorb_sim(&ssim.borrow());
+                    }
+                }
+            }
+        }
+        let (opened_cuts, samples_checked, fewer) = (tally.opened, tally.samples, tally.fewer);
         {
             let mut s = sim.borrow_mut();
             s.disk.set_cap(None);
